@@ -325,6 +325,8 @@ func c06VetoAndMatrixGrids(s *Shard) {
 		{[]float64{0, 1, 4, 7}, [][]thr{{{Q: 1, P: 2, V: 4}, {Q: 1, P: 3, V: 6}}, {{Q: 1, P: 3, V: 6}, {Q: 1, P: 2, V: 4}}}, [][]float64{{2, 1}, {1, 1}, {1, 2}}},
 		{[]float64{0, 6, 7, 10, 11, 20}, [][]thr{{{Q: 1, P: 2, V: 5}, {Q: 1, P: 2, V: 12}, {Q: 1, P: 2, V: 12}}, {{Q: 1, P: 2, V: 12}, {Q: 1, P: 2, V: 12}, {Q: 1, P: 2, V: 12}}}, [][]float64{{6, 2, 2}, {2, 2, 2}}},
 	}
+	tiny := dg{[]float64{0, 1e-9, 4e-9, 7e-9}, [][]thr{{{Q: 1e-9, P: 2e-9, V: 4e-9}, {Q: 1e-9, P: 3e-9, V: 6e-9}}}, [][]float64{{2, 1}, {1, 1}}}
+	dgs = append(dgs, tiny)
 	for _, g := range dgs {
 		m := len(g.thr[0])
 		dims := make([]int, 2*m)
